@@ -654,8 +654,10 @@ fn sweep<'a, B: SddBuilder<'a>>(b: &'a B, cfg: &SCfg, ctx: &Ctx) -> Report {
     }
     // compose and ite (not implemented by the semantic builder)
     if !s.stop && !cfg.semantic {
-        let gpool: Vec<usize> = if total <= 256 { perm.clone() } else { perm.iter().cloned().step_by(total / 64).collect() };
-        let fpool: Vec<usize> = if total <= 256 { perm.clone() } else { perm.iter().cloned().step_by(total / 256).collect() };
+        // (strided operand-pool configurations, i.e. the quick n = 5 ones, compose a thinner slice)
+        let light = cfg.pool == 1 && cfg.pair_stride > 0;
+        let gpool: Vec<usize> = if total <= 256 { perm.clone() } else { perm.iter().cloned().step_by(total / if light { 16 } else { 64 }).collect() };
+        let fpool: Vec<usize> = if total <= 256 { perm.clone() } else { perm.iter().cloned().step_by(total / if light { 128 } else { 256 }).collect() };
         'c: for &i in fpool.iter() {
             for v in 0..n {
                 for &j in gpool.iter() {
@@ -783,11 +785,8 @@ pub fn configs(ctx: &Ctx, semantic: bool, hash: bool) -> Vec<SCfg> {
     // n = 4, all 65 536 functions with a stride over the pairs
     let v4 = all_vtrees(4);
     if quick {
-        if !hash {
-            for (i, vt) in v4.into_iter().enumerate().filter(|(i, _)| i % 40 == 3) {
-                out.push(SCfg { n: 4, vtree: vt, compress: !semantic && i % 40 == 3, issue: i, ite_pool: 8, pair_stride: 4099, ..base.clone() });
-            }
-        }
+        // (all 65 536 functions of 4 variables take about half a minute per vtree: thorough tier only)
+        let _ = v4;
     } else {
         for (i, vt) in v4.into_iter().enumerate() {
             for &compress in modes.iter() {
@@ -816,7 +815,7 @@ pub fn run_all_h(ctx: &Ctx, semantic: bool, hash: bool) -> Report {
         rep.merge(w);
     }
     rep.distinct_nontrivial = rep.transitions;
-    rep.bound("vtrees", json!({"n=3": "all 12, all functions, all ordered pairs", "n=2": "both", "n=4 operand pool (cubes, clauses, functions of <= 2 variables), all ordered pairs": "all 120 vtrees", "n=4 all functions": if ctx.tier == Tier::Quick {"3 of 120 vtrees, pair stride 4099"} else {"all 120, pair stride 257"}, "n=5 operand pool": if ctx.tier == Tier::Quick {"56 vtrees (14 shapes x 4 leaf orders), all unary operations, pair stride 31"} else {"14 shapes x identity/reversed leaf order + every 97th other vtree, all ordered pairs"}}));
+    rep.bound("vtrees", json!({"n=3": "all 12, all functions, all ordered pairs", "n=2": "both", "n=4 operand pool (cubes, clauses, functions of <= 2 variables), all ordered pairs": "all 120 vtrees", "n=4 all functions": if ctx.tier == Tier::Quick {"thorough tier only"} else {"all 120, pair stride 257"}, "n=5 operand pool": if ctx.tier == Tier::Quick {"56 vtrees (14 shapes x 4 leaf orders), all unary operations, pair stride 31"} else {"14 shapes x identity/reversed leaf order + every 97th other vtree, all ordered pairs"}}));
     rep.bound("compression", json!(if semantic {"n/a (semantic builder)"} else {"on and off"}));
     rep.sample(json!({"cfg": {"vtree": "((0 2) 1)", "compress": true, "table_cap": 2}, "ops": ["And(0x96, 0xe8)", "Compose(0xca, 1, 0x3c)", "Ite(0x1b, 0xd8, 0x27)"]}));
     for k in ["apply_case_same_vtree_node", "apply_case_descendant_a", "apply_case_descendant_b", "apply_case_independent"] {
